@@ -800,7 +800,17 @@ func RuleD4(which ...string) Rule {
 						cmpZero = call // comparison with a zero-valued local big.Int
 					}
 				}
-				if cmpMod == nil || cmpZero == nil || len(cs) != 2 {
+				// v.Sign() is the comparison of v with zero
+				nSign := 0
+				if cmpZero == nil {
+					for _, x := range findCalls(fn, staticIs("math/big", "Int", "Sign")) {
+						if call, isCall := x.(*ssa.Call); isCall && core.PathOf(call.Call.Args[0]) == "p:v" {
+							cmpZero = call
+							nSign++
+						}
+					}
+				}
+				if cmpMod == nil || cmpZero == nil || len(cs)+nSign != 2 {
 					c.Bad("D4", "SetBigInt:shape", fn.Pos(), "SetBigInt no longer decides on Cmp(v, modulus) and Cmp(v, 0)")
 					continue
 				}
@@ -913,6 +923,25 @@ func derivesFromParam(v ssa.Value, name string) bool {
 					}
 				}
 			}
+		case *ssa.MakeSlice:
+			// a fresh buffer as long as the parameter, filled element by element from it (a reversed or plain copy)
+			if l, isLen := core.IsLenOf(x.Len); isLen && derivesFromParam(l, name) {
+				for _, r := range core.Refs(x) {
+					ia, isIA := r.(*ssa.IndexAddr)
+					if !isIA || ia.X != ssa.Value(x) {
+						continue
+					}
+					for _, u := range core.Refs(ia) {
+						if st, isSt := u.(*ssa.Store); isSt && st.Addr == ssa.Value(ia) {
+							if ld, isLd := st.Val.(*ssa.UnOp); isLd && ld.Op == token.MUL {
+								if src, isSrc := ld.X.(*ssa.IndexAddr); isSrc && derivesFromParam(src.X, name) {
+									return true
+								}
+							}
+						}
+					}
+				}
+			}
 		}
 		return false
 	}
@@ -963,6 +992,29 @@ func (c *Ctx) d4MaxInit() {
 	pos := g.Pos()
 	if len(inits) > 0 {
 		pos = inits[0].Pos()
+	}
+	if !ok && len(inits) == 0 {
+		// initialised where it is declared: the initialiser expression, constant-folded, is the scalar VectorLength-1
+		fo := &folder{limit: 100_000}
+		if v, err := func() (v any, err error) {
+			defer func() {
+				if r := recover(); r != nil {
+					if fe, isFE := r.(foldErr); isFE {
+						err = fmt.Errorf("%s", fe.msg)
+						return
+					}
+					panic(r)
+				}
+			}()
+			return fo.global(g), nil
+		}(); err == nil {
+			if p, isP := v.(fptr); isP && p.o != nil {
+				if t, isT := p.o.slots[p.i].(*fterm); isT && t.String() == fU(vl-1).String() {
+					c.OK("D4", "computeBVector:max=VectorLength-1", pos, fmt.Sprintf("the declaration's initialiser folds to the scalar %d", vl-1))
+					return
+				}
+			}
+		}
 	}
 	c.Check(ok, "D4", "computeBVector:max=VectorLength-1", pos, fmt.Sprintf("maxEvalPointInsideDomain is not initialised (once, in init) to VectorLength-1 = %d: the in/out-of-domain switch is displaced", vl-1), fmt.Sprintf("SetUint64(%d) in init", vl-1))
 }
